@@ -197,6 +197,32 @@ v("b64-near-padding-correct", ["C06"], "$near argument padded with the defaults 
 """))
 
 
+# ---- variants for the rules added after round 5
+v("b65-build-index-hoist-invariant", ["C06", "C07", "C05"], "loop-invariant workspace path hoisted out of the indexing loop",
+  (P, "        for job_id in self._find_job_ids():\n            doc = {\"sp\": self._get_statepoint(job_id)}", "        workspace = self.workspace\n        for job_id in self._find_job_ids():\n            doc = {\"sp\": self._get_statepoint(job_id)}"),
+  (P, "fn_document = os.sep.join((self.workspace, job_id, Job.FN_DOCUMENT))", "fn_document = os.sep.join((workspace, job_id, Job.FN_DOCUMENT))"))
+v("b66-check-listing-local", ["C09", "C03", "C11"], "check(): the listing bound to a local before the loop",
+  (P, "        logger.info(\"Checking workspace for corruption...\")\n        for job_id in self._find_job_ids():", "        logger.info(\"Checking workspace for corruption...\")\n        listed = self._find_job_ids()\n        for job_id in listed:"))
+v("b67-parse-filter-tokens-local", ["C07", "C06"], "tokens bound to a local",
+  (FPA, "        yield from parse_simple(filter.split())", "        tokens = filter.split()\n        yield from parse_simple(tokens)"))
+v("b68-hashable-dict-frozenset", ["C06", "C07", "C18"], "order-independent hash spelled with frozenset",
+  ("signac/_utility.py", "        return hash(tuple(sorted(self.items())))", "        return hash(frozenset(self.items()))"))
+v("b69-sync-doc-local", ["C13", "C14", "C15"], "destination document bound to a local before the backup context",
+  (S, "            with proxy.create_doc_backup(dst.document) as dst_proxy:\n                doc_sync(src.document, dst_proxy)\n\n\nFileTransferStats", "            dst_doc = dst.document\n            with proxy.create_doc_backup(dst_doc) as dst_proxy:\n                doc_sync(src.document, dst_proxy)\n\n\nFileTransferStats"))
+v("b70-crawl-walk-topdown-explicit", ["C16"], "default topdown spelled out",
+  (IE, "    for path, dirs, _ in os.walk(root):", "    for path, dirs, _ in os.walk(root, topdown=True):"))
+v("b71-zip-relpath-local", ["C16"], "relative member name bound to a local",
+  (IE, "            fn_dst = self.job.fn(os.path.relpath(name, self.root))", "            rel = os.path.relpath(name, self.root)\n            fn_dst = self.job.fn(rel)"))
+v("b72-locate-config-start-local", ["C19", "C20"], "absolute start bound to a local first",
+  (CFG_, "    orig_search_path = search_path\n    search_path = os.path.abspath(search_path)\n", "    orig_search_path = search_path\n    start = os.path.abspath(search_path)\n    search_path = start\n"))
+v("b73-project-immutable-class-defaults", ["C08", "C02"], "immutable class-level defaults for the cache bookkeeping flags (the cache dict itself stays per instance)",
+  (P, "    _use_pandas_for_html_repr = True  # toggle use of pandas for html repr\n\n    def __init__(self, path=None):", "    _use_pandas_for_html_repr = True  # toggle use of pandas for html repr\n    _sp_cache_read = False\n    _sp_cache_misses = 0\n\n    def __init__(self, path=None):"))
+v("b74-load-validate-hoisted", ["C01", "C09"], "load(): the expected id bound to a local, in-memory update still after the check",
+  (J, "        if calc_id(data) != job_id:\n            raise JobsCorruptedError([job_id])\n\n        with self._suspend_sync:", "        found = calc_id(data)\n        if found != job_id:\n            raise JobsCorruptedError([job_id])\n\n        with self._suspend_sync:"))
+v("b75-update-cache-tmp-name-local", ["C10", "C03", "C08"], "update_cache: same temporary, suffix via a constant",
+  (P, "            fn_cache_tmp = fn_cache + \"~\"", "            suffix = \"~\"\n            fn_cache_tmp = fn_cache + suffix"))
+
+
 def main():
     os.makedirs(OUT, exist_ok=True)
     for f in os.listdir(OUT):
